@@ -500,6 +500,9 @@ pub struct Spaces {
 fn typed_sweep(which: Which, tier: Tier, variants: bool, perturbed: bool) -> Sweep {
     let progs = sem::typed_programs(sem::typed_size(tier));
     let p2 = progs.clone();
+    // for C01 / C04 the perturbations are applied to the programs of the smaller sizes only
+    let small = sem::typed_programs_count(sem::typed_size(tier) - 1);
+    let perturb_limit = small as u64;
     Sweep::new(
         &format!(
             "type-directed programs{}{}",
@@ -516,7 +519,7 @@ fn typed_sweep(which: Which, tier: Tier, variants: bool, perturbed: bool) -> Swe
                     examine(&surface::print(&v), which, tier);
                 }
             }
-            if perturbed {
+            if perturbed && (which == Which::C03 || idx < perturb_limit) {
                 for v in perturbations(s) {
                     count!("perturbations");
                     examine(&surface::print(&v), which, tier);
@@ -792,7 +795,7 @@ pub fn sweeps_for(which: Which, tier: Tier) -> Vec<Sweep> {
     let mut v = vec![];
     match which {
         Which::C01 => {
-            v.push(typed_sweep(which, tier, true, false));
+            v.push(typed_sweep(which, tier, true, true));
             v.push(small_sweep(which, tier));
             v.push(alias_sweep(which, tier));
             v.push(order_sweep(which, tier, 2));
@@ -810,7 +813,7 @@ pub fn sweeps_for(which: Which, tier: Tier) -> Vec<Sweep> {
             v.push(alias_sweep(which, tier));
         }
         Which::C04 => {
-            v.push(typed_sweep(which, tier, true, false));
+            v.push(typed_sweep(which, tier, true, true));
             v.push(alias_sweep(which, tier));
             v.push(small_sweep(which, tier));
         }
